@@ -50,16 +50,9 @@ def count_obligations(air_path):
     return per
 
 
-def run_unit(unit, crate, repo, jobs=8, rlimit=None):
-    """-> dict(result) ; raises ExtractionError"""
-    g = G.generate(unit, crate, repo)
-    text = HEADER + g.text() + FOOTER
-    off = HEADER.count('\n')
-    os.makedirs(GEN, exist_ok=True)
-    # runs against a scratch copy of the repository get their own directory, so that they cannot race with a run against /repo
-    gdir = GEN if os.path.realpath(repo) == '/repo' else os.path.join(GEN, f'scratch-{os.getpid()}')
-    os.makedirs(gdir, exist_ok=True)
-    path = os.path.join(gdir, unit + '.rs')
+def _verus(text, unit, gdir, jobs, rlimit, fname):
+    """run Verus on `text` (cached by sha256 of the text + Verus version) -> (raw result, path of the generated file)"""
+    path = os.path.join(gdir, fname)
     open(path, 'w').write(text)
     sha = hashlib.sha256((text + verus_version()).encode()).hexdigest()
     cdir = os.path.join(CACHE, 'verus')
@@ -91,12 +84,94 @@ def run_unit(unit, crate, repo, jobs=8, rlimit=None):
         os.replace(tmp, cfile)
         # prune
         olds = sorted((f for f in os.listdir(cdir)), key=lambda f: os.path.getmtime(os.path.join(cdir, f)))
-        for f in olds[:-200]:
+        for f in olds[:-300]:
             try:
                 os.remove(os.path.join(cdir, f))
             except OSError:
                 pass
-    return interpret(unit, g, raw, off, path)
+    return raw, path
+
+
+def _removable(g, k):
+    """a sidecar proof statement that stands on one line with balanced brackets: removing it only removes a hint"""
+    if not (0 <= k < len(g.lines)):
+        return False
+    # (ghost statements are recognised syntactically: no line of extracted Rust starts with `proof {`, `assert(` or `lemma_`)
+    t = g.lines[k].strip()
+    if not re.match(r'(assert\(|proof\s*\{|lemma_\w+\(|\w+::lemma_\w+\(|reveal\()', t):
+        return False
+    if t.startswith('assert forall') or (t.startswith('assert') and t.rstrip().endswith('by {')):
+        return False
+    return all(t.count(a) == t.count(b) for a, b in ('()', '{}', '[]')) and t.endswith((';', '}'))
+
+
+def run_unit(unit, crate, repo, jobs=8, rlimit=None):
+    """-> dict(result) ; raises ExtractionError"""
+    g = G.generate(unit, crate, repo)
+    text = HEADER + g.text() + FOOTER
+    off = HEADER.count('\n')
+    os.makedirs(GEN, exist_ok=True)
+    # runs against a scratch copy of the repository get their own directory, so that they cannot race with a run against /repo
+    gdir = GEN if os.path.realpath(repo) == '/repo' else os.path.join(GEN, f'scratch-{os.getpid()}')
+    os.makedirs(gdir, exist_ok=True)
+    raw, path = _verus(text, unit, gdir, jobs, rlimit, unit + '.rs')
+    res = interpret(unit, g, raw, off, path)
+    # UNMASKING PASSES.  Verus assumes a failed assertion and carries on; when the failed statement contradicts the context,
+    # everything after it is vacuously "verified" (the taint rule records that).  If the failed statement is a sidecar HINT
+    # (an assert / lemma call that is not part of any contract), the unit is verified again with that hint removed: obligations
+    # that fail then are reported as failed obligations in their own right ("passed on the unchanged tree, cannot be discharged now").
+    res['unmask_passes'] = 0
+    lines = text.split('\n')
+    seen = {(f['function'], f['clause'], f['kind']) for f in res['failures']}
+    removed_all = []
+    removed_props = set()
+    cur = res
+    while cur['tainted'] and not cur['tool_errors'] and res['unmask_passes'] < 3 and os.environ.get('VERIF_NO_UNMASK') != '1':
+        ks = set()
+        for f in cur['failures']:
+            if f['function'] in g.expect_fail:
+                continue
+            for k in (f.get('site_k'), f.get('clause_k')):
+                if k is not None and _removable(g, k) and (f['kind'].startswith('assertion failed') or 'precondition not satisfied' in f['kind']):
+                    ks.add(k)
+                    break
+        # hints come in chains (each one uses the facts of the previous one): remove every removable hint of the same function
+        # that carries exactly the same tags as a failed one
+        fn_of_line = G.line_fn_map(g)
+        for k in list(ks):
+            for k2 in range(len(g.lines)):
+                if fn_of_line[k2] == fn_of_line[k] and g.meta[k2]['tags'] == g.meta[k]['tags'] and g.meta[k]['tags'] and _removable(g, k2):
+                    ks.add(k2)
+        ks = {k for k in ks if not lines[off + k].lstrip().startswith('// unmasked:')}
+        if not ks:
+            break
+        for k in ks:
+            removed_all.append(g.lines[k].strip()[:200])
+            removed_props.update(t.split(':')[0] for t in g.meta[k]['tags'])
+            lines[off + k] = '// unmasked: ' + lines[off + k].strip()
+        res['unmask_passes'] += 1
+        raw2, _ = _verus('\n'.join(lines), unit, gdir, jobs, rlimit, f'{unit}_unmask{res["unmask_passes"]}.rs')
+        cur = interpret(unit, g, raw2, off, path)
+        if cur['tool_errors'] and not cur.get('verified'):
+            break       # the text without the hint does not compile: nothing learnt
+        cur['tool_errors'] = []     # (resource limits of unrelated lemmas in this auxiliary pass do not matter)
+        for f in cur['failures']:
+            key = (f['function'], f['clause'], f['kind'])
+            if key not in seen:
+                seen.add(key)
+                # a clause that shares a property with the removed hints may fail only because the hints are gone: it stays
+                # undecided (taint); a clause of other properties does not use those hints (tagging discipline) and its failure counts
+                if {t.split(':')[0] for t in f['tags']} & removed_props:
+                    res.setdefault('unmask_dependent', []).append(dict(f, unmasked=True))
+                    continue
+                f = dict(f, kind=f['kind'] + ' (after removing the failed proof hint(s): ' + ' | '.join(removed_all)[:300] + ')', unmasked=True)
+                res['failures'].append(f)
+        res['tainted'] = dict(cur['tainted'])
+        for f in res.get('unmask_dependent', []):
+            if f['function']:
+                res['tainted'][f['function']] = sorted(set(res['tainted'].get(f['function'], [])) | set(f['tags']))
+    res['removed_hints'] = removed_all
+    return res
 
 
 def interpret(unit, g, raw, off, path):
@@ -186,6 +261,7 @@ def interpret(unit, g, raw, off, path):
         res['failures'].append({
             'function': fn, 'kind': msg, 'clause': ctext[:300], 'clause_origin': cmeta['origin'],
             'site': stext[:300], 'site_origin': smeta['origin'], 'tags': sorted(tags), 'site_line': max(sk, ck) if sfn == cfn else sk,
+            'clause_k': ck, 'site_k': sk, 'span_lines': (site.get('line_start', 0) - 1 - off, site.get('line_end', 0) - 1 - off),
             'src': finfo.get('src'), 'rendered': (d.get('rendered') or '')[:2500],
         })
     # expect-fail functions (canaries) must fail; their failures are not reported
